@@ -154,6 +154,7 @@ func (m *Module) EmitBinOp(x, y Value, op wat.OpCode) (insts []wat.Inst, ret_typ
 			insts = append(insts, m.COMPLEX128.(*Complex128).emitDiv()...)
 		} else {
 			insts = append(insts, wat.NewInstDiv(toWatType(ret_type)))
+			insts = m.emitSignedDivOverflowGuard(x, y, insts)
 		}
 
 	case wat.OpCodeRem:
@@ -363,6 +364,27 @@ func (m *Module) emitShiftCountGuard(x, y Value, shift []wat.Inst, shr bool) (in
 		insts = append(insts, wat.NewInstLt(wat.U32{}))
 	}
 	insts = append(insts, wat.NewInstIf(shift, over, []wat.ValueType{x_type}))
+	return
+}
+
+// 有符号整数最小值除以 -1 时结果回绕为最小值, 而 wasm 的 div_s 会触发溢出异常
+func (m *Module) emitSignedDivOverflowGuard(x, y Value, div []wat.Inst) (insts []wat.Inst) {
+	x_type := toWatType(x.Type())
+	switch x_type.(type) {
+	case wat.I32, wat.I64:
+	default:
+		return div
+	}
+
+	var neg []wat.Inst
+	neg = append(neg, wat.NewInstConst(x_type, "0"))
+	neg = append(neg, x.EmitPushNoRetain()...)
+	neg = append(neg, wat.NewInstSub(x_type))
+
+	insts = append(insts, y.EmitPushNoRetain()...)
+	insts = append(insts, wat.NewInstConst(x_type, "-1"))
+	insts = append(insts, wat.NewInstEq(x_type))
+	insts = append(insts, wat.NewInstIf(neg, div, []wat.ValueType{x_type}))
 	return
 }
 
